@@ -651,7 +651,10 @@ static int push_args(Node *node) {
     switch (ty->kind) {
     case TY_STRUCT:
     case TY_UNION:
-      if (pass_in_memory(ty) || is_empty_aggregate(ty)) {
+      if (is_empty_aggregate(ty)) {
+        // Nothing is passed, and no room is left for it.
+        arg->pass_by_stack = true;
+      } else if (pass_in_memory(ty)) {
         arg->pass_by_stack = true;
         stack = stack_arg_slots(arg, stack);
       } else {
@@ -1585,7 +1588,9 @@ static void assign_lvar_offsets(Obj *prog) {
 
       // Stack arguments are aligned within the argument area, which
       // starts at 16(%rbp), not to absolute addresses.
-      top = 16 + align_to(top - 16, MAX(8, ty->align));
+      // An empty aggregate takes no room there, not even for alignment.
+      if (!is_empty_aggregate(ty))
+        top = 16 + align_to(top - 16, MAX(8, ty->align));
       var->offset = top;
       top += var->ty->size;
     }
